@@ -277,6 +277,42 @@ def spec_end(target):
     return [] if target == "opencl" else ["}"]
 
 
+def match_vectorize(target, toks, var, lim):
+    """semantic reading of the text a `//vectorize_over V L` line expands to (from the property statement, not from the code):
+    CPU: a C `for` header that runs V over 0 .. L-1 in steps of one;  OpenCL / CUDA: V is the work-item index of the contexts'
+    launch geometry, followed by the guard `if (V < L) {` (mandatory on CUDA, whose grid is rounded up; allowed on OpenCL).
+    Redundant parentheses around the limit, `++V`, an initialised declaration and a 64-bit counter type are accepted spellings.
+    Returns the number of braces the expansion leaves open, or None when the text is none of these forms."""
+    if toks is None:
+        return None
+    V, L = f"\x00{var.name}\x00", f"\x00{lim.name}\x00"
+    t = []
+    k = 0
+    while k < len(toks):  # ( L ) -> L
+        if toks[k] == "(" and k + 2 < len(toks) and toks[k + 1] == L and toks[k + 2] == ")" and not (k > 0 and re.match(r"[A-Za-z_]", toks[k - 1]) and toks[k - 1] not in ("if", "for")):
+            t.append(L)
+            k += 3
+        else:
+            t.append(toks[k])
+            k += 1
+    types = ("int", "int64_t", "long")
+    if target.startswith("cpu"):
+        for step in ([V, "++"], ["++", V]):
+            for ty in types:
+                if t == ["for", "(", ty, V, "=", "0", ";", V, "<", L, ";"] + step + [")", "{"]:
+                    return 1
+        return None
+    idx = ["get_global_id", "(", "0", ")"] if target == "opencl" else ["blockDim.x", "*", "blockIdx.x", "+", "threadIdx.x"]
+    guard = ["if", "(", V, "<", L, ")", "{"]
+    for ty in types:
+        for decl in ([ty, V, ";", V, "="] + idx + [";"], [ty, V, "="] + idx + [";"]):
+            if t == decl + guard:
+                return 1
+            if t == decl and target == "opencl":
+                return 0
+    return None
+
+
 QUAL_SPEC = {
     # marker: target -> predicate on the replacement text (from the property statement: CPU targets carry no GPU
     # keyword; OpenCL pointers into object memory carry the global address-space qualifier; CUDA kernels/functions
@@ -352,6 +388,8 @@ def vc_specialize(target):
         yield "only_for_other", lambda st: AbsLine("only-", {"//vectorize_over": False, "//end_vectorize": False, "//only_for_context": True}, listed=False)
         yield "plain", lambda st: AbsLine("plain", {"//vectorize_over": False, "//end_vectorize": False, "//only_for_context": False})
 
+    braces = {}
+
     def preserve1(interp, st, g, label, line, k, node):
         nl = st.locals["new_lines"]
         inside2 = st.locals["inside_vect_block"]
@@ -359,11 +397,16 @@ def vc_specialize(target):
         items = nl.items if ok else []
         if label == "vectorize_over":
             toks = [t for it_ in items for t in norm_tokens(it_)] if all(isinstance(x, (str, Tmpl)) for x in items) else None
-            ob(st, f"inv{k}.preserve", "vectorize_expansion", ok and toks == spec_vectorize(T, *line.tokens), node.lineno)
+            opened = match_vectorize(T, toks, *line.tokens) if ok else None
+            braces["open"] = opened
+            ob(st, f"inv{k}.preserve", "vectorize_expansion", opened is not None, node.lineno)
             ob(st, f"inv{k}.preserve", "vectorize_enters_block", inside2 is True, node.lineno)
         elif label == "end_vectorize":
             toks = [t for it_ in items for t in norm_tokens(it_)] if all(isinstance(x, (str, Tmpl)) for x in items) else None
-            ob(st, f"inv{k}.preserve", "end_expansion", ok and toks == spec_end(T), node.lineno)
+            closes = ok and toks is not None and all(x == "}" for x in toks)
+            braces["close"] = len(toks) if closes else None
+            braces["line"] = node.lineno
+            ob(st, f"inv{k}.preserve", "end_expansion", closes, node.lineno)
             ob(st, f"inv{k}.preserve", "end_leaves_block", inside2 is False, node.lineno)
         elif label == "only_for_listed":
             ob(st, f"inv{k}.preserve", "listed_line_active", ok and len(items) == 1 and items[0] is line, node.lineno)
@@ -432,6 +475,11 @@ def vc_specialize(target):
                 continue
             wants = want if isinstance(want, tuple) else (want,)
             ob(st, "post", f"qualifier{marker.strip('/*')}", repl.strip() in wants, None, ("C15", "C16"))
+    if braces.get("open") is not None and braces.get("close") is not None:
+        # the block is closed by exactly the braces its header opened (loop / guard body = the lines between the two markers)
+        from pyvc.core import State as _State
+
+        ob(_State(), "post", "braces_balanced", braces["open"] == braces["close"], braces.get("line"))
     it.n_paths = n
     return it.obligations, it
 
